@@ -1,6 +1,11 @@
 import CaresLemmas.ChanPolicyPicksExec
 import CaresLemmas.ChanPolicyRank
 import CaresLemmas.ChanPolicyProbe
+import CaresLemmas.ChanPolicyProbe2Run
+import CaresLemmas.ChanPolicyProbe2Frame
+import CaresLemmas.ChanPolicyProbe2CountRun
+import CaresLemmas.ChanPolicyProbe2Seq
+import CaresLemmas.ChanPolicyProbe2Once
 /-!
 # C09 — Server selection follows the documented failover policy
 
@@ -21,6 +26,14 @@ from the observation `s.obs`; every theorem holds for all observations.
 * `probe_only_when_eligible`, `sendNolock_probe_flags`, `requeue_noRetries_ends` — probes go only to a server with
   failures whose retry time has passed, that is not being probed and is not the user's server, only when
   `retryChance ≠ 0`; they are `noRetries` requests that bypass the cache and are never re-sent.
+* whole runs (`exec fuel call s`): `probe_only_failed_servers_run` — the run with an assertion at every creation of a
+  probe query (`execG`: the server has failures, its retry time has passed, the triggering request went to another
+  server) is the run without assertions: no assertion ever fails; `probe_noninterference_run` — the completion of a
+  probe query removes that query and changes nothing else any request can observe (frame form);
+  `one_probe_per_send_partial` — on a channel without compound requests one `ares_send_nolock` creates at most two
+  queries (the request and one probe; a probe's own send: one) plus two per request started by a callback reaction
+  meanwhile; `send_query_probes_once` (every `go`): `ares_send_query` enters the lottery at most once, last;
+  `failure_releases_probe_pending`, `failed_probe_releases_pending` — a server's failure clears `probe_pending` (F48-C09).
 -/
 namespace Cares.C09
 open Cares.Chan
@@ -203,5 +216,185 @@ example :
 example : (exSt.incFailures 1 false).sortedServers.map (·.id) = [2, 0, 1] ∧
     (exSt.setGood 0 false).sortedServers.map (·.id) = [0, 1, 2] ∧ exSt.IdsNodup := by
   unfold St.IdsNodup; decide
+
+/-! ## probes over whole runs -/
+
+/-- **probe_only_failed_servers_run.**  `execG` is `exec` with an assertion at the entry of every nested call
+    (`guardGo`): a call `sendNolock … owner := probe` — the creation of a probe query — asserts `probeSendOk`
+    (spelled out by `probe_guard_spec` below), a call `probe srvId key` (`ares_probe_failed_server`) asserts `trigOk`;
+    a failed assertion aborts the run the way running out of fuel does (`probe_guard_failure_is_visible`).
+    For every fuel, every call whose own entry assertion holds — every call other than those two, in particular every
+    API-level one (`probeGuard_api`) — and every state, the two runs are equal: no assertion fails.  In particular
+    a run that does not run out of fuel completes without a failed assertion. -/
+theorem probe_only_failed_servers_run (fuel : Nat) (c : Call) (s : St) (hc : ProbeGuard c s = true) :
+    execG fuel c s = exec fuel c s ∧
+    ((exec fuel c s).1.outOfFuel = false → (execG fuel c s).1.outOfFuel = false) := by
+  have h := execG_eq_exec fuel c s hc
+  exact ⟨h, fun hf => by rw [h]; exact hf⟩
+
+/-- what is asserted when a probe query is created: probing is configured (`retryChance ≠ 0`); a server with the
+    requested id has failures, its retry time has passed at this moment, and it has just been marked as being probed;
+    the most recent server choice in the pick log — the request that triggered the probe — was an ordinary attempt
+    (no server requested) at a *different* server, one that had no failures.  The probe itself is sent with
+    `nocache`, `noretry`, no reactions, to that server explicitly. -/
+theorem probe_guard_spec (srv : Option Nat) (nocache noretry : Bool) (spec : ReqSpec) (react : List Nat) (s : St)
+    (h : ProbeGuard (.sendNolock srv nocache noretry spec .probe react) s = true) :
+    ∃ id, srv = some id ∧ nocache = true ∧ noretry = true ∧ react = [] ∧ s.cfg.retryChance ≠ 0 ∧
+      (∃ v ∈ s.servers, v.id = id ∧ 0 < v.failures ∧ v.nextRetry ≤ s.now ∧ v.probePending = true) ∧
+      ∃ key chosen prio, s.picks.getLast? = some (key, chosen, false, prio) ∧ chosen ≠ id ∧ (chosen, 0) ∈ prio :=
+  probeGuard_spec srv nocache noretry spec react s h
+
+/-- with distinct server indices (as `ares_servers_update` assigns them) the server found eligible is the one the
+    probe is addressed to (`server? id`, what `ares_send_query` looks up for a requested server) -/
+theorem probe_guard_server (id : Nat) (s : St) (hn : s.IdsNodup) (h : probeSendOk id s = true) :
+    ∃ v, s.server? id = some v ∧ 0 < v.failures ∧ v.nextRetry ≤ s.now ∧ v.probePending = true :=
+  probeSendOk_server id s hn h
+
+/-- every call other than `probe` and a probe's `sendNolock` carries no assertion -/
+theorem probeGuard_api (c : Call) (s : St) (h1 : ∀ a b, c ≠ .probe a b)
+    (h2 : ∀ a b d e f, c ≠ .sendNolock a b d e .probe f) : ProbeGuard c s = true := by
+  unfold ProbeGuard
+  split
+  · exact absurd rfl (h2 _ _ _ _ _)
+  · exact absurd rfl (h1 _ _)
+  · rfl
+
+/-- a failed assertion sets the sticky flag `outOfFuel`, which the rest of the guarded run never clears -/
+theorem probe_guard_failure_is_visible :
+    (∀ go c s, ProbeGuard c s = false → (guardGo go c s).1.outOfFuel = true) ∧
+    (∀ fuel c s, s.outOfFuel = true → (execG fuel c s).1.outOfFuel = true) :=
+  ⟨guardGo_fail, execG_oof⟩
+
+/-- **probe_noninterference_run** (frame form).  The completion of a probe query — `end_query` of a query owned by
+    `probe`, with any status, any answer, from any state, run to its end — removes exactly that query from the store:
+    every other query keeps all its fields; the pending and completed user tokens, the events, the query cache, the
+    compound requests, the deferred-requeue array, the ghost logs and the fault logs are untouched (`SameOutcome`).
+    (What a probe can do to other requests is confined to the servers' state — `probe_pending`, metrics — and to the
+    connection it was attached to.  The stronger form "the user callbacks of a run do not depend on `retryChance`" is
+    not a theorem of the model nor a property of the code: the lottery consumes random draws, and a probe whose
+    write fails closes the connection it shares with other queries to that server — see the notes.) -/
+theorem probe_noninterference_run (fuel : Nat) (srv : Option Nat) (key : Nat) (st : Status) (rec : Option Reply)
+    (s : St) (q : Query) (hq : s.query? key = some q) (ho : q.owner = .probe) :
+    let r := (exec fuel (.endQuery srv key st rec) s).1
+    r.outOfFuel = false → r.qs = s.qs.filter (·.key != key) ∧ SameOutcome s r := by
+  intro r hf
+  by_cases h2 : fuel < 2
+  · have := exec_endQuery_oof fuel h2 srv key st rec s q hq
+    rw [this] at hf; cases hf
+  · obtain ⟨n, rfl⟩ : ∃ n, fuel = n + 2 := ⟨fuel - 2, by omega⟩
+    have e : r = endProbeSt srv key st rec q s := by
+      show (exec (n + 2) (.endQuery srv key st rec) s).1 = _
+      rw [exec_endQuery_probe n srv key st rec s q hq ho]
+    rw [e]
+    exact endProbeSt_frame srv key st rec q s
+
+/-- … and the callback of a probe (`server_probe_cb`) is a no-op -/
+theorem probe_callback_noop (fuel : Nat) (react : List Nat) (st : Status) (timeouts : Nat) (rec : Option Reply)
+    (s : St) : exec (fuel + 1) (.callback .probe react st timeouts rec) s = (s, .ok) :=
+  exec_callback_probe fuel react st timeouts rec s
+
+/-- **failure_releases_probe_pending.**  `server_increment_failures` ends the server's probe episode: afterwards every
+    server with that id has `probe_pending = false`, every other server is exactly as it was, and the ids (and their
+    order) are unchanged.  (Finding F48-C09, repaired in `server_increment_failures`: the pinned C code cleared the
+    flag only in `end_query(server ≠ NULL)`, and a failed probe is ended with `end_query(NULL)` — after one failed
+    probe the server was never probed again.  Replay of the pinned run: `replay/stuck-probe.txt`.) -/
+theorem failure_releases_probe_pending (s : St) (id : Nat) (tcp : Bool) :
+    let s' := s.incFailures id tcp
+    (∀ v ∈ s'.servers, v.id = id → v.probePending = false) ∧
+    (∀ w : Server, w.id ≠ id → (w ∈ s'.servers ↔ w ∈ s.servers)) ∧
+    s'.servers.map (·.id) = s.servers.map (·.id) :=
+  incFailures_probePending s id tcp
+
+/-- **failed_probe_releases_pending.**  Every way a probe fails counts a failure of the probed server and then hands
+    the probe to `ares_requeue_query` — the time-out (`process_timeouts`, first conjunct, for every `go`), a
+    connection that cannot be opened or a write that fails (`ares_send_query`; ECONNREFUSED on the write goes through
+    `handle_conn_error` first: run `exShare` in `C09Runs.lean`).  Second conjunct, for every fuel and state: the whole
+    run of that `requeue` on a probe (owner `probe`, `no_retries`) leaves the servers exactly as the failure left
+    them, so when it completes the probed server has `probe_pending = false` and `ares_probe_failed_server` (which
+    skips servers with the flag set, `probe_only_when_eligible`) can probe it again once its retry time has passed. -/
+theorem failed_probe_releases_pending :
+    (∀ (go : Call → St → St × Ret) (s : St) (key : Nat) (q : Query) (c : Conn),
+      s.byTimeout.head? = some key → s.query? key = some q → expired s.now q.deadline = true →
+      q.conn.bind s.conn? = some c →
+      bodyProcessTimeouts go s = go .processTimeouts (go (.requeue key .timeout true none false)
+        ((s.modQuery key fun q => { q with timeouts := q.timeouts + 1 }).incFailures c.srv q.usingTcp)).1) ∧
+    (∀ (fuel key : Nat) (st : Status) (inc : Bool) (rec : Option Reply) (deferred : Bool) (s : St) (q : Query)
+      (id : Nat) (tcp : Bool), s.query? key = some q → q.owner = .probe → q.noRetries = true →
+      let s1 := s.incFailures id tcp
+      let r := (exec fuel (.requeue key st inc rec deferred) s1).1
+      r.outOfFuel = false → r.servers = s1.servers ∧ ∀ v ∈ r.servers, v.id = id → v.probePending = false) := by
+  refine ⟨?_, ?_⟩
+  · intro go s key q c hh hq he hc
+    unfold bodyProcessTimeouts
+    simp only [hh, hq, he, hc, Bool.not_true, Bool.false_eq_true, ↓reduceIte]
+  · intro fuel key st inc rec deferred s q id tcp hq ho hnr s1 r hf
+    have hsv : r.servers = s1.servers :=
+      exec_requeue_probe_frame fuel key st inc rec deferred s1 q ((query?_incFailures s id tcp key).trans hq) ho hnr hf
+    refine ⟨hsv, fun v hv => ?_⟩
+    rw [hsv] at hv
+    exact (incFailures_probePending s id tcp).1 v hv
+
+/- **one_probe_per_send** (full statement): for every fuel and state, the run of one `sendNolock` creates at most one
+   probe query *of its own* — not counting the queries created by the requests that completion callbacks start during
+   the run (each of those is a `sendNolock` of its own, with a probe of its own).  Proved below for channels without a
+   compound request (`ares_search` / `ares_getaddrinfo`: `clients = []`), with the requests started by callback
+   *reactions* accounted for through the model's counter `reactSeq`.  Missing for the general case: the requests a
+   compound request starts from its completion callback are not counted anywhere in the model's state, so the
+   created queries cannot be attributed to the send that caused them. -/
+/-- **one_probe_per_send_partial.**  Queries are numbered by `nextKey`, requests started by callback reactions by
+    `reactSeq`.  On a channel without compound requests the whole run of one `ares_send_nolock` — every retry,
+    connection failure, close, cancel and callback it causes included — creates at most two queries for itself (the
+    request and one probe; with a requested server, as for a probe's own send, only the request) plus at most two for
+    each request a reaction started during the run.  Without configured reactions: at most two (one) queries. -/
+theorem one_probe_per_send_partial (fuel : Nat) (rs : Option Nat) (nocache noretry : Bool) (spec : ReqSpec)
+    (owner : Owner) (react : List Nat) (s : St) (hc : s.clients = []) :
+    let r := (exec fuel (.sendNolock rs nocache noretry spec owner react) s).1
+    r.clients = [] ∧
+    r.nextKey + 2 * s.reactSeq ≤ s.nextKey + (if rs.isSome then 1 else 2) + 2 * r.reactSeq ∧
+    (s.reactions = [] → r.nextKey ≤ s.nextKey + (if rs.isSome then 1 else 2)) := by
+  intro r
+  obtain ⟨h1, h2⟩ := exec_sendNolock_count fuel rs nocache noretry spec owner react s hc
+  refine ⟨h1, h2, fun hr => ?_⟩
+  have h3 : r.reactSeq = s.reactSeq := (exec_reactSeq fuel _ s hr).2
+  have h2' : r.nextKey + 2 * s.reactSeq ≤ s.nextKey + snBudget rs + 2 * r.reactSeq := h2
+  rw [h3] at h2'
+  show r.nextKey ≤ s.nextKey + snBudget rs
+  omega
+
+/-- the budgets behind it (no compound request, no reaction): `ares_send_query` creates at most one query — a probe —
+    and only for an untried query without a requested server; `ares_probe_failed_server` at most one -/
+theorem send_query_budget (fuel : Nat) (rs : Option Nat) (srvId key : Nat) (s : St) (hc : s.clients = [])
+    (hr : s.reactions = []) :
+    (exec fuel (.sendQuery rs key) s).1.nextKey ≤ s.nextKey + sqBudget rs key s ∧
+    (exec fuel (.probe srvId key) s).1.nextKey ≤ s.nextKey + 1 := by
+  have h1 := (exec_count (s.nextKey + sqBudget rs key s) s.reactSeq fuel (.sendQuery rs key) s 0 ⟨hc, by omega⟩).2
+  have h2 := (exec_count (s.nextKey + 1) s.reactSeq fuel (.probe srvId key) s 0 ⟨hc, by omega⟩).2
+  rw [(exec_reactSeq fuel _ s hr).2] at h1 h2
+  constructor <;> omega
+
+/-- **send_query_probes_once** (for every `go`, no hypothesis): `ares_send_query` consults the probe lottery at most
+    once, as its very last step, and only for a request without a requested server that has not been tried before.
+    `noProbe go` is `go` with the lottery switched off: the body either never calls `probe`, or it is the body without
+    lottery followed by exactly one call `go (.probe srvId key)`.  Together with `probe_only_when_eligible` (the lottery
+    makes at most one `sendNolock`, with a requested server — which therefore never enters the lottery itself) this is
+    the call structure behind `one_probe_per_send_partial`. -/
+theorem send_query_probes_once (go : Call → St → St × Ret) (reqSrv : Option Nat) (key : Nat) (s : St) :
+    bodySendQuery go reqSrv key s = bodySendQuery (noProbe go) reqSrv key s ∨
+    (reqSrv = none ∧ (∃ q, s.query? key = some q ∧ q.tryCount = 0) ∧
+      (bodySendQuery (noProbe go) reqSrv key s).2 = .ok ∧
+      ∃ srvId, bodySendQuery go reqSrv key s =
+        ((go (.probe srvId key) (bodySendQuery (noProbe go) reqSrv key s).1).1, .ok)) :=
+  bodySendQuery_once go reqSrv key s
+
+/-! ### non-vacuity of the run theorems (more concrete runs: `CaresProps/C09Runs.lean`) -/
+
+def exStP : St := { exSt with cfg := { retryChance := 1 } }
+
+/-- the guarded run of the example (probe created for server 0) completes: every assertion on the way evaluates to
+    true, and the probe exists at the end -/
+example :
+    let r := (execG 60 (.sendNolock none false false exSpec (.user 1) []) exStP).1
+    r.outOfFuel = false ∧ r.qs.map (fun q => (q.key, q.owner)) = [(0, .user 1), (1, .probe)] ∧ r.nextKey = 2 := by
+  decide
 
 end Cares.C09
